@@ -334,7 +334,7 @@ func (cap *commandArgParser) parseEachInput(args redisArgs, input ...respValue) 
 				}
 			}
 
-			if pms != PARSE_SINGLE_VALUE {
+			if pms != PARSE_SINGLE_VALUE && pms != PARSE_ONE_OF_TOKEN {
 				foundMultiple = true
 
 				// check recursively if multiple arguments stop here
